@@ -88,6 +88,17 @@ func init() {
 			}
 		}
 		p := p
+		// the same tokens after prior calls that may leave something behind (single goroutine)
+		Scenarios[fmt.Sprintf("c04.after-prior-calls.p%d", p)] = func() (choice.Scenario, func() any) {
+			return func(c *choice.Ctx) {
+				k := 1 + c.Choose("prior-activity", len(polluteNames)-1)
+				v := c.Choose("variant", 2)
+				t := genWireToken(c, p, v)
+				t.devs = append(t.devs, "after:"+polluteNames[k])
+				pollute(k)
+				c04Eval(c, c04stats, t)
+			}, nil
+		}
 		// every permutation of the keys of the minimal token
 		Scenarios[fmt.Sprintf("c04.perm.p%d", p)] = func() (choice.Scenario, func() any) {
 			base := genWireToken(&choice.Ctx{}, p, 0)
@@ -114,6 +125,9 @@ func init() {
 		bound := 1
 		if thorough(r) {
 			bound = 2
+		}
+		for _, p := range []int{1, 2} {
+			exploreChoiceOpts(r, fmt.Sprintf("c04.after-prior-calls.p%d", p), 2, dl, 1)
 		}
 		for _, p := range []int{1, 2} {
 			for v := 0; v < 2; v++ {
